@@ -90,6 +90,35 @@ type ctx struct {
 	input   string // description of the current damaged blob
 	decodes int64
 	gz      bool
+	// reuse: scanners and JSON/BSON receivers live as long as the run and see every
+	// input in turn (rows scanned in a loop into one scanner, documents decoded into
+	// one value), instead of a fresh one per input
+	reuse bool
+	kept  map[string]interface{}
+}
+
+func newCtx(t *core.T) *ctx {
+	c := &ctx{t: t, reuse: t.Src.Chance(1, 3, "reuse-receivers")}
+	if c.reuse {
+		t.Probe("receivers_reused_across_inputs")
+	}
+	return c
+}
+
+// recv returns the receiver for an entry point: a fresh one, or the run's own.
+func (c *ctx) recv(name string, mk func() interface{}) interface{} {
+	if !c.reuse {
+		return mk()
+	}
+	if c.kept == nil {
+		c.kept = map[string]interface{}{}
+	}
+	v, ok := c.kept[name]
+	if !ok {
+		v = mk()
+		c.kept[name] = v
+	}
+	return v
 }
 
 // call runs one decoder entry point under the no-panic and memory oracles.
@@ -223,15 +252,18 @@ func (c *ctx) decodeWKB(data []byte, rf simio.ReaderFaults) {
 	for d := 0; d < m.NumDest; d++ {
 		d := d
 		c.call("wkb.Scanner.Scan", n, func() {
-			err := wkb.Scanner(m.NewDest(d)).Scan(cp(data))
+			sc := c.recv(fmt.Sprint("wkb.Scanner/", d), func() interface{} { return wkb.Scanner(m.NewDest(d)) }).(*wkb.GeometryScanner)
+			err := sc.Scan(cp(data))
 			c.mix(uint64(10+d), err == nil)
 		})
 		c.call("ewkb.Scanner.Scan", n, func() {
-			err := ewkb.Scanner(m.NewDest(d)).Scan(cp(data))
+			sc := c.recv(fmt.Sprint("ewkb.Scanner/", d), func() interface{} { return ewkb.Scanner(m.NewDest(d)) }).(*ewkb.GeometryScanner)
+			err := sc.Scan(cp(data))
 			c.mix(uint64(20+d), err == nil)
 		})
 		c.call("ewkb.ScannerPrefixSRID.Scan", n, func() {
-			err := ewkb.ScannerPrefixSRID(m.NewDest(d)).Scan(cp(data))
+			sc := c.recv(fmt.Sprint("ewkb.ScannerPrefixSRID/", d), func() interface{} { return ewkb.ScannerPrefixSRID(m.NewDest(d)) }).(*ewkb.GeometryScanner)
+			err := sc.Scan(cp(data))
 			c.mix(uint64(30+d), err == nil)
 		})
 	}
@@ -271,30 +303,30 @@ func (c *ctx) decodeJSON(data []byte) {
 	c.call("geojson.UnmarshalGeometry", n, func() { _, err := geojson.UnmarshalGeometry(data); c.mix(50, err == nil) })
 	c.call("geojson.UnmarshalFeature", n, func() { _, err := geojson.UnmarshalFeature(data); c.mix(51, err == nil) })
 	c.call("geojson.UnmarshalFeatureCollection", n, func() { _, err := geojson.UnmarshalFeatureCollection(data); c.mix(52, err == nil) })
-	c.call("json.Unmarshal(*geojson.Geometry)", n, func() { err := json.Unmarshal(data, &geojson.Geometry{}); c.mix(53, err == nil) })
-	c.call("json.Unmarshal(*geojson.Feature)", n, func() { err := json.Unmarshal(data, &geojson.Feature{}); c.mix(54, err == nil) })
-	c.call("json.Unmarshal(*geojson.FeatureCollection)", n, func() { err := json.Unmarshal(data, &geojson.FeatureCollection{}); c.mix(55, err == nil) })
-	c.call("geojson.Point.UnmarshalJSON", n, func() { err := (&geojson.Point{}).UnmarshalJSON(data); c.mix(56, err == nil) })
-	c.call("geojson.MultiPoint.UnmarshalJSON", n, func() { err := (&geojson.MultiPoint{}).UnmarshalJSON(data); c.mix(57, err == nil) })
-	c.call("geojson.LineString.UnmarshalJSON", n, func() { err := (&geojson.LineString{}).UnmarshalJSON(data); c.mix(58, err == nil) })
-	c.call("geojson.MultiLineString.UnmarshalJSON", n, func() { err := (&geojson.MultiLineString{}).UnmarshalJSON(data); c.mix(59, err == nil) })
-	c.call("geojson.Polygon.UnmarshalJSON", n, func() { err := (&geojson.Polygon{}).UnmarshalJSON(data); c.mix(60, err == nil) })
-	c.call("geojson.MultiPolygon.UnmarshalJSON", n, func() { err := (&geojson.MultiPolygon{}).UnmarshalJSON(data); c.mix(61, err == nil) })
+	c.call("json.Unmarshal(*geojson.Geometry)", n, func() { err := json.Unmarshal(data, c.recv("geojson.Geometry", func() interface{} { return &geojson.Geometry{} }).(*geojson.Geometry)); c.mix(53, err == nil) })
+	c.call("json.Unmarshal(*geojson.Feature)", n, func() { err := json.Unmarshal(data, c.recv("geojson.Feature", func() interface{} { return &geojson.Feature{} }).(*geojson.Feature)); c.mix(54, err == nil) })
+	c.call("json.Unmarshal(*geojson.FeatureCollection)", n, func() { err := json.Unmarshal(data, c.recv("geojson.FeatureCollection", func() interface{} { return &geojson.FeatureCollection{} }).(*geojson.FeatureCollection)); c.mix(55, err == nil) })
+	c.call("geojson.Point.UnmarshalJSON", n, func() { err := c.recv("geojson.Point", func() interface{} { return &geojson.Point{} }).(*geojson.Point).UnmarshalJSON(data); c.mix(56, err == nil) })
+	c.call("geojson.MultiPoint.UnmarshalJSON", n, func() { err := c.recv("geojson.MultiPoint", func() interface{} { return &geojson.MultiPoint{} }).(*geojson.MultiPoint).UnmarshalJSON(data); c.mix(57, err == nil) })
+	c.call("geojson.LineString.UnmarshalJSON", n, func() { err := c.recv("geojson.LineString", func() interface{} { return &geojson.LineString{} }).(*geojson.LineString).UnmarshalJSON(data); c.mix(58, err == nil) })
+	c.call("geojson.MultiLineString.UnmarshalJSON", n, func() { err := c.recv("geojson.MultiLineString", func() interface{} { return &geojson.MultiLineString{} }).(*geojson.MultiLineString).UnmarshalJSON(data); c.mix(59, err == nil) })
+	c.call("geojson.Polygon.UnmarshalJSON", n, func() { err := c.recv("geojson.Polygon", func() interface{} { return &geojson.Polygon{} }).(*geojson.Polygon).UnmarshalJSON(data); c.mix(60, err == nil) })
+	c.call("geojson.MultiPolygon.UnmarshalJSON", n, func() { err := c.recv("geojson.MultiPolygon", func() interface{} { return &geojson.MultiPolygon{} }).(*geojson.MultiPolygon).UnmarshalJSON(data); c.mix(61, err == nil) })
 	c.call("geojson.BBox(json)", n, func() { var b geojson.BBox; err := json.Unmarshal(data, &b); c.mix(62, err == nil) })
 }
 
 func (c *ctx) decodeBSON(data []byte) {
 	n := len(data)
 	// always through orb's own methods, so every reported panic has an orb frame under it
-	c.call("geojson.Geometry.UnmarshalBSON", n, func() { err := (&geojson.Geometry{}).UnmarshalBSON(data); c.mix(70, err == nil) })
-	c.call("geojson.Feature.UnmarshalBSON", n, func() { err := (&geojson.Feature{}).UnmarshalBSON(data); c.mix(71, err == nil) })
-	c.call("geojson.FeatureCollection.UnmarshalBSON", n, func() { err := (&geojson.FeatureCollection{}).UnmarshalBSON(data); c.mix(72, err == nil) })
-	c.call("geojson.Point.UnmarshalBSON", n, func() { err := (&geojson.Point{}).UnmarshalBSON(data); c.mix(73, err == nil) })
-	c.call("geojson.MultiPoint.UnmarshalBSON", n, func() { err := (&geojson.MultiPoint{}).UnmarshalBSON(data); c.mix(74, err == nil) })
-	c.call("geojson.LineString.UnmarshalBSON", n, func() { err := (&geojson.LineString{}).UnmarshalBSON(data); c.mix(75, err == nil) })
-	c.call("geojson.MultiLineString.UnmarshalBSON", n, func() { err := (&geojson.MultiLineString{}).UnmarshalBSON(data); c.mix(76, err == nil) })
-	c.call("geojson.Polygon.UnmarshalBSON", n, func() { err := (&geojson.Polygon{}).UnmarshalBSON(data); c.mix(77, err == nil) })
-	c.call("geojson.MultiPolygon.UnmarshalBSON", n, func() { err := (&geojson.MultiPolygon{}).UnmarshalBSON(data); c.mix(78, err == nil) })
+	c.call("geojson.Geometry.UnmarshalBSON", n, func() { err := c.recv("geojson.Geometry", func() interface{} { return &geojson.Geometry{} }).(*geojson.Geometry).UnmarshalBSON(data); c.mix(70, err == nil) })
+	c.call("geojson.Feature.UnmarshalBSON", n, func() { err := c.recv("geojson.Feature", func() interface{} { return &geojson.Feature{} }).(*geojson.Feature).UnmarshalBSON(data); c.mix(71, err == nil) })
+	c.call("geojson.FeatureCollection.UnmarshalBSON", n, func() { err := c.recv("geojson.FeatureCollection", func() interface{} { return &geojson.FeatureCollection{} }).(*geojson.FeatureCollection).UnmarshalBSON(data); c.mix(72, err == nil) })
+	c.call("geojson.Point.UnmarshalBSON", n, func() { err := c.recv("geojson.Point", func() interface{} { return &geojson.Point{} }).(*geojson.Point).UnmarshalBSON(data); c.mix(73, err == nil) })
+	c.call("geojson.MultiPoint.UnmarshalBSON", n, func() { err := c.recv("geojson.MultiPoint", func() interface{} { return &geojson.MultiPoint{} }).(*geojson.MultiPoint).UnmarshalBSON(data); c.mix(74, err == nil) })
+	c.call("geojson.LineString.UnmarshalBSON", n, func() { err := c.recv("geojson.LineString", func() interface{} { return &geojson.LineString{} }).(*geojson.LineString).UnmarshalBSON(data); c.mix(75, err == nil) })
+	c.call("geojson.MultiLineString.UnmarshalBSON", n, func() { err := c.recv("geojson.MultiLineString", func() interface{} { return &geojson.MultiLineString{} }).(*geojson.MultiLineString).UnmarshalBSON(data); c.mix(76, err == nil) })
+	c.call("geojson.Polygon.UnmarshalBSON", n, func() { err := c.recv("geojson.Polygon", func() interface{} { return &geojson.Polygon{} }).(*geojson.Polygon).UnmarshalBSON(data); c.mix(77, err == nil) })
+	c.call("geojson.MultiPolygon.UnmarshalBSON", n, func() { err := c.recv("geojson.MultiPolygon", func() interface{} { return &geojson.MultiPolygon{} }).(*geojson.MultiPolygon).UnmarshalBSON(data); c.mix(78, err == nil) })
 }
 
 func (c *ctx) decodeMVT(data []byte) {
@@ -535,7 +567,7 @@ func RunEnum(t *core.T) {
 	}
 	t.Logf("stored %s %s (%d bytes): %s = %s; enumerating every %s fault; reader %+v", famNames[fam], b.enc, len(b.data), b.desc, hx(b.data), kind, rf)
 	t.State(fmt.Sprintf("enum/%s/%s/%s/%s", famNames[fam], b.enc, kind, b.sig))
-	c := &ctx{t: t}
+	c := newCtx(t)
 	// control: the undamaged blob
 	c.input = "undamaged " + hx(b.data)
 	c.decode(fam, b.data, rf)
@@ -621,7 +653,7 @@ func RunStack(t *core.T) {
 		other.data = nil
 	}
 	t.Logf("stored %s %s (%d bytes): %s = %s", famNames[fam], b.enc, len(b.data), b.desc, hx(b.data))
-	c := &ctx{t: t}
+	c := newCtx(t)
 	s.Repeat(1, 24, 48, "variant", func(int) {
 		if t.Unlisted() >= 4 {
 			return
@@ -740,7 +772,7 @@ func cap40(ty uint32) int {
 func RunSmall(t *core.T) {
 	warmUp()
 	s := t.Src
-	c := &ctx{t: t}
+	c := newCtx(t)
 	switch s.Intn(5, "space") {
 	case 4:
 		// what a driver might hand the scanners: short blobs over the bytes framing detection looks at
